@@ -13,7 +13,6 @@ PROP = dict(
     ],
     gen=[
         dict(module="GenServePipeline", cfg=dict(quick="GenServePipeline_quick.cfg", thorough="GenServePipeline_thorough.cfg"), timeout=1200),
-        dict(module="GenServePipeline", cfg="GenServePipeline_thorough3.cfg", timeout=1800, tiers=["thorough"]),
         dict(module="GenAccessorMemo", cfg=dict(quick="GenAccessorMemo_quick.cfg", thorough="GenAccessorMemo_thorough.cfg"), timeout=1200),
     ],
     driver="c09",
@@ -23,7 +22,7 @@ PROP = dict(
     level_text="ServePipeline models N concurrent requests advancing stage by stage (one action per verif hook / harness callback); "
                "TLC checks in every interleaving that each request observes exactly what it observes alone (Private), and finds the "
                "cross-talk counterexample when any per-request field (params, consumer, admitting alternative, bound values) is moved "
-               "to the shared route entry. TLC exports the interleavings (context-switch bound 2 quick / 4 thorough, all operation "
+               "to the shared route entry. TLC exports the interleavings (context-switch bound 2 quick / 3 thorough, all operation "
                "pairs) and the gated replayer executes each against ONE real handler instance, the hooks being the scheduler gates; "
                "every recorded event is validated against the spec. AccessorMemo models the per-request memo cells; TLC checks the "
                "reuse facts on all histories and exports every accessor history (length 3 / 4, 87 request kinds) which are replayed "
